@@ -63,41 +63,17 @@ func DrawCliCase(ch Chooser) *CliCase {
 	}
 	dash := []string{"--", "-"}
 	d := func() string { return dash[ch.Intn(2)] }
-	switch ch.Intn(6) {
-	case 1:
-		c.Args = append(c.Args, d()+"typecheck")
-	case 2:
-		c.Args = append(c.Args, d()+"typecheck=false")
-	case 3:
-		c.Args = append(c.Args, d()+"notypecheck")
-	case 4:
-		c.Args = append(c.Args, d()+"typecheck=true", d()+"notypecheck")
-	case 5:
-		c.Args = append(c.Args, d()+"notypecheck=false")
-	}
-	switch ch.Intn(6) {
-	case 1:
-		c.Args = append(c.Args, d()+"execute")
-	case 2:
-		c.Args = append(c.Args, d()+"execute=false")
-	case 3:
-		c.Args = append(c.Args, d()+"noexecute")
-	case 4:
-		c.Args = append(c.Args, d()+"noexecute", d()+"execute=true")
-	case 5:
-		c.Args = append(c.Args, d()+"noexecute=false")
-	}
-	switch ch.Intn(6) {
-	case 1:
-		c.Args = append(c.Args, d()+"sync")
-	case 2:
-		c.Args = append(c.Args, d()+"async")
-	case 3:
-		c.Args = append(c.Args, d()+"async=false")
-	case 4:
-		c.Args = append(c.Args, d()+"sync", d()+"async")
-	case 5:
-		c.Args = append(c.Args, d()+"sync=false")
+	// every boolean switch independently: absent (most often), bare, =true, =false - so that pairs
+	// such as `--noexecute --execute=false` or `--notypecheck=false --typecheck=false` occur
+	for _, name := range []string{"typecheck", "notypecheck", "execute", "noexecute", "sync", "async"} {
+		switch ch.Intn(7) {
+		case 1, 2:
+			c.Args = append(c.Args, d()+name)
+		case 3:
+			c.Args = append(c.Args, d()+name+"=true")
+		case 4:
+			c.Args = append(c.Args, d()+name+"=false")
+		}
 	}
 	if v := ch.Intn(7); v > 0 {
 		c.Args = append(c.Args, d()+"verbosity", fmt.Sprint(v-2)) // -1 .. 4
@@ -213,10 +189,28 @@ func hasPanicTrace(o cliOutcome) bool {
 	return strings.Contains(s, "goroutine ") && (strings.Contains(s, "[running]") || strings.Contains(s, "panic:")) || strings.Contains(s, "fatal error:")
 }
 
+func stripANSI(s string) string {
+	for {
+		i := strings.Index(s, "\x1b[")
+		if i < 0 {
+			return s
+		}
+		j := i + 2
+		for j < len(s) && !(s[j] >= '@' && s[j] <= '~') {
+			j++
+		}
+		if j >= len(s) {
+			return s[:i]
+		}
+		s = s[:i] + s[j+1:]
+	}
+}
+
 func programOutputLines(o cliOutcome) int {
 	n := 0
 	for _, l := range strings.Split(o.Stdout, "\n") {
-		if strings.HasPrefix(l, "> ") {
+		// at higher verbosity the line is preceded by ANSI colour escapes
+		if strings.HasPrefix(stripANSI(l), "> ") {
 			n++
 		}
 	}
@@ -228,7 +222,7 @@ func ExecCliCase(bin, dir string, c *CliCase) (*Violation, cliOutcome, cliFacts)
 	e := expectFor(c)
 	o := runCli(bin, dir, c)
 	mk := func(class, msg string) *Violation {
-		return &Violation{Prop: "C18", Class: class, Msg: trunc(msg, 400), Facts: map[string]string{"sync": fmt.Sprint(e.sync), "contraction": fmt.Sprint(f.Contraction), "typecheck": fmt.Sprint(e.typecheck)}}
+		return &Violation{Prop: "C18", Class: class, Msg: trunc(msg, 400), Facts: map[string]string{"sync": fmt.Sprint(e.sync), "contraction": fmt.Sprint(f.Contraction), "typecheck": fmt.Sprint(e.typecheck), "panic_trace": fmt.Sprint(hasPanicTrace(o))}}
 	}
 	if o.TimedOut {
 		return mk("timeout", "the command did not finish within 30 s"), o, f
